@@ -142,10 +142,15 @@ fn c07_update_headers_two_meshes() {
 #[kani::proof]
 #[kani::unwind(8)]
 fn c07_replace_vertices_step() {
-    let meshes = vec![any_mesh(0)];
-    let submeshes = vec![Submesh { index_offset: kani::any(), index_count: kani::any(), attribute_index_mask: 0, bone_start_index: 0, bone_count: 0 }];
+    // the edited mesh owns sub-mesh slot 1 of the header table; slot 0 belongs to something else and must not move.
+    // The ranges handed in come from another part's list (they carry slot number 0): the slot that is updated is the
+    // edited part's own, not the one the caller's value happens to name.
+    let meshes = vec![any_mesh(1)];
+    let (other_off, other_cnt): (u32, u32) = (kani::any(), kani::any());
+    let submeshes = vec![Submesh { index_offset: other_off, index_count: other_cnt, attribute_index_mask: 0, bone_start_index: 0, bone_count: 0 },
+                         Submesh { index_offset: kani::any(), index_count: kani::any(), attribute_index_mask: 0, bone_start_index: 0, bone_count: 0 }];
     let mut p = part(0);
-    p.submeshes = vec![SubMesh { submesh_index: 0, index_count: 0, index_offset: 0 }];
+    p.submeshes = vec![SubMesh { submesh_index: 1, index_count: 0, index_offset: 0 }];
     let mut mdl = model_with(meshes, submeshes, [(0, 1), (1, 0), (1, 0)], 1, vec![Lod { parts: vec![p] }]);
     let verts = [Vertex::default(), Vertex::default(), Vertex::default()];
     let idx: [u16; 6] = kani::any();
@@ -154,8 +159,9 @@ fn c07_replace_vertices_step() {
     mdl.replace_vertices(0, 0, &verts, &idx, &new_sub);
     assert_eq!(mdl.model_data.meshes[0].vertex_count, 3);
     assert_eq!(mdl.model_data.meshes[0].index_count, 6);
-    assert_eq!(mdl.model_data.submeshes[0].index_offset, new_off);
-    assert_eq!(mdl.model_data.submeshes[0].index_count, 6);
+    assert_eq!(mdl.model_data.submeshes[1].index_offset, new_off);
+    assert_eq!(mdl.model_data.submeshes[1].index_count, 6);
+    assert_eq!((mdl.model_data.submeshes[0].index_offset, mdl.model_data.submeshes[0].index_count), (other_off, other_cnt));
     assert_eq!(mdl.lods[0].parts[0].indices.len(), 6);
     assert_eq!(mdl.lods[0].parts[0].vertices.len(), 3);
     let k: usize = kani::any();
